@@ -8,7 +8,8 @@
    What is proved for all inputs: the oracle's soundness (a `true` of the boolean oracles evaluated on the
    implementation's outputs really is the declarative statement), truncation < 1 ms and its idempotence (no drift),
    the Tags split/join laws, the hit writer pipeline on lists with the declared columns in declared order (any number
-   of rows, any cells), the hold end-time cell law, the timing-point / scroll-velocity reader per record.
+   of rows, any cells), the hold end-time cell law, the timing-point / scroll-velocity reader per record, and the repaired note reader on
+   the record shapes with omitted StartTime / KeySounds / Lane (all values, fixed shapes).
    Missing (hence _partial): invariance of the DataFrame pipelines under column order and the assembly of the
    sections into the whole-document statement; these are covered by the per-run correspondence only. *)
 From Coq Require Import ZArith QArith Qabs List Bool.
@@ -63,20 +64,50 @@ Theorem C06_read_scroll_velocity_partial : forall r p, point_denote K_Multiplier
   point_row_denote N_multiplier [(N_offset, getd K_StartTime (YInt 0) r); (N_multiplier, getd K_Multiplier (YFloat 1) r)] = Some p.
 Proof. exact read_sv_row_denotes. Qed.
 
-(* the property as stated is FALSE of the faithful model (witnesses replayed on the implementation = the findings) *)
-Theorem C06_read_denotes_refuted : ~ (forall doc, wf_docb doc = true -> read_ok doc = true).
-Proof. exact qua_read_denotes_refuted. Qed.
-Theorem C06_read_omitted_keysounds_refuted :
-  wf_docb wit_omit_keysounds = true /\ read_ok wit_omit_keysounds = false /\ rw_ok wit_omit_keysounds = false.
-Proof. exact qua_read_omitted_keysounds_refuted. Qed.
-Theorem C06_read_hold_omitted_starttime_refuted :
-  wf_docb wit_hold_omit_start = true /\ read_ok wit_hold_omit_start = false /\ rw_ok wit_hold_omit_start = false.
-Proof. exact qua_read_hold_omitted_starttime_refuted. Qed.
-Theorem C06_read_holds_all_omit_starttime_refuted :
-  wf_docb wit_holds_all_omit_start = true /\ Live.read wit_holds_all_omit_start = None.
-Proof. exact qua_read_holds_all_omit_starttime_refuted. Qed.
-Theorem C06_read_all_omit_lane_refuted : wf_docb wit_all_omit_lane = true /\ Live.read wit_all_omit_lane = None.
-Proof. exact qua_read_all_omit_lane_refuted. Qed.
+(* Defects of the OLD note reader (pinned snapshot; repaired in /repo by 736886e), stated about the clearly named OLD
+   model variant [Live.read_OLD] ... *)
+Theorem C06_OLD_read_omitted_keysounds_refuted :
+  wf_docb wit_omit_keysounds = true /\ read_ok_OLD wit_omit_keysounds = false /\ rw_ok_OLD wit_omit_keysounds = false.
+Proof. exact OLD_read_omitted_keysounds_refuted. Qed.
+Theorem C06_OLD_read_hold_omitted_starttime_refuted :
+  wf_docb wit_hold_omit_start = true /\ read_ok_OLD wit_hold_omit_start = false /\ rw_ok_OLD wit_hold_omit_start = false.
+Proof. exact OLD_read_hold_omitted_starttime_refuted. Qed.
+Theorem C06_OLD_read_holds_all_omit_starttime_refuted :
+  wf_docb wit_holds_all_omit_start = true /\ Live.read_OLD wit_holds_all_omit_start = None.
+Proof. exact OLD_read_holds_all_omit_starttime_refuted. Qed.
+Theorem C06_OLD_read_all_omit_lane_refuted : wf_docb wit_all_omit_lane = true /\ Live.read_OLD wit_all_omit_lane = None.
+Proof. exact OLD_read_all_omit_lane_refuted. Qed.
+(* ... and the current reader reads each of those documents as it denotes and writes it back well-formed *)
+Theorem C06_read_former_witnesses_ok :
+  forallb (fun d => wf_docb d && read_ok d && rw_ok d)
+          [wit_omit_keysounds; wit_hold_omit_start; wit_holds_all_omit_start; wit_all_omit_lane] = true.
+Proof. exact qua_read_former_witnesses_ok. Qed.
+(* the repaired reader on the record shapes the OLD reader got wrong, for all times, lanes and key sounds:
+   the frame is produced, every row is denotable and the notes are exactly those qua_denote gives the records *)
+Theorem C06_hold_omitting_starttime_read : forall e l ks, is_text_list ks = true ->
+  reads_as_denoted holds_from_yaml hold_row_denote [[(K_EndTime, YInt e); (K_Lane, YInt l); (K_KeySounds, YList ks)]].
+Proof. exact hold_omitting_starttime_read. Qed.
+Theorem C06_hold_omitting_starttime_beside_complete_read : forall e1 l1 ks1 s2 e2 l2 ks2,
+  is_text_list ks1 = true -> is_text_list ks2 = true ->
+  reads_as_denoted holds_from_yaml hold_row_denote
+    [[(K_EndTime, YInt e1); (K_Lane, YInt l1); (K_KeySounds, YList ks1)];
+     [(K_StartTime, YInt s2); (K_EndTime, YInt e2); (K_Lane, YInt l2); (K_KeySounds, YList ks2)]].
+Proof. exact hold_omitting_starttime_beside_complete_read. Qed.
+Theorem C06_hit_omitting_keysounds_read : forall s l,
+  reads_as_denoted hits_from_yaml hit_row_denote [[(K_StartTime, YInt s); (K_Lane, YInt l)]].
+Proof. exact hit_omitting_keysounds_read. Qed.
+Theorem C06_hit_omitting_keysounds_beside_complete_read : forall s1 l1 s2 l2 ks2, is_text_list ks2 = true ->
+  reads_as_denoted hits_from_yaml hit_row_denote
+    [[(K_StartTime, YInt s1); (K_Lane, YInt l1)]; [(K_KeySounds, YList ks2); (K_Lane, YInt l2); (K_StartTime, YInt s2)]].
+Proof. exact hit_omitting_keysounds_beside_complete_read. Qed.
+Theorem C06_hits_all_omitting_lane_read : forall s1 ks1 s2, is_text_list ks1 = true ->
+  reads_as_denoted hits_from_yaml hit_row_denote [[(K_StartTime, YInt s1); (K_KeySounds, YList ks1)]; [(K_StartTime, YInt s2)]].
+Proof. exact hits_all_omitting_lane_read. Qed.
+Theorem C06_holds_all_omitting_lane_and_start_read : forall e1 e2,
+  reads_as_denoted holds_from_yaml hold_row_denote [[(K_EndTime, YInt e1)]; [(K_EndTime, YInt e2)]].
+Proof. exact holds_all_omitting_lane_and_start_read. Qed.
+(* charts with an extra `index` column / NaN keysounds (what TimedList.empty() produced before 4a9b03a / 3b9da0f) are
+   still written through by the writer; nothing in /repo produces such charts any more *)
 Theorem C06_write_index_key_refuted :
   wf_chartb true (wit_conv_chart true false) = true /\ write_ok (wit_conv_chart true false) = false.
 Proof. exact qua_write_index_key_refuted. Qed.
